@@ -371,12 +371,26 @@ class SymArray:
                     dt = "i8"
         return self._map(lambda a: f(a, o), dt)
 
-    def __add__(self, o): return self._bin(o, lambda a, b: a + b)
-    def __radd__(self, o): return self._bin(o, lambda a, b: b + a)
-    def __sub__(self, o): return self._bin(o, lambda a, b: a - b)
-    def __rsub__(self, o): return self._bin(o, lambda a, b: b - a)
-    def __mul__(self, o): return self._bin(o, lambda a, b: a * b)
-    def __rmul__(self, o): return self._bin(o, lambda a, b: b * a)
+    def _int_guard(self, r):
+        """Integer-dtype arithmetic wraps around silently in numpy.  The model computes over the reals, so every
+        symbolic element of an integer-dtype result records the condition under which the two agree (a definedness
+        condition, why-prefix 'integer overflow'); harnesses that quantify over integer arrays prove it on their box."""
+        if isinstance(r, SymArray) and r.dtype_tag in INTS:
+            lim = Q(2 ** (31 if r.dtype_tag == "i4" else 63) - 1)
+            c = None
+            for v in r._flat():
+                if isinstance(v, Sym):
+                    c = c or ctx()
+                    c.require((lift(v) <= lim).node, f"integer overflow: {DType(r.dtype_tag).name} result {v!r} <= {lim}")
+                    c.require((lift(v) >= -lim - 1).node, f"integer overflow: {DType(r.dtype_tag).name} result {v!r} >= -{lim}-1")
+        return r
+
+    def __add__(self, o): return self._int_guard(self._bin(o, lambda a, b: a + b))
+    def __radd__(self, o): return self._int_guard(self._bin(o, lambda a, b: b + a))
+    def __sub__(self, o): return self._int_guard(self._bin(o, lambda a, b: a - b))
+    def __rsub__(self, o): return self._int_guard(self._bin(o, lambda a, b: b - a))
+    def __mul__(self, o): return self._int_guard(self._bin(o, lambda a, b: a * b))
+    def __rmul__(self, o): return self._int_guard(self._bin(o, lambda a, b: b * a))
 
     def _fdt(self, o):
         dt = self.dtype_tag
@@ -414,7 +428,7 @@ class SymArray:
     def __pow__(self, o):
         c = concrete(o) if _is_scalar(o) else None
         if c is not None and c.denominator == 1 and c >= 0:
-            return self._bin(o, lambda a, b: a ** b, self.dtype_tag)
+            return self._int_guard(self._bin(o, lambda a, b: a ** b, self.dtype_tag))
         if c is not None and c.denominator == 1 and self.dtype_tag in INTS:
             raise ValueError("Integers to negative integer powers are not allowed.")
         return self._bin(o, lambda a, b: _spow(a, b), self._fdt(o))
@@ -655,6 +669,8 @@ class SymRec:
 
 def asarray(x, dtype=None):
     tag = _norm_dtype(dtype) if dtype is not None and not isinstance(dtype, list) else None
+    if hasattr(x, "__sx_plain__"):
+        x = x.__sx_plain__()          # np.asarray(series): the values, positional, same buffer
     if isinstance(x, SymArray):
         return x.astype(tag) if tag and tag != x.dtype_tag else x
     if hasattr(x, "__sx_array__"):
@@ -817,15 +833,22 @@ class NP:
         return self._like(a, Q(0), dtype)
 
     def result_type(self, *xs):
-        tags = []
+        tags, weak = [], []
         for x in xs:
             if isinstance(x, SymArray):
                 tags.append(x.dtype_tag)
             elif _is_scalar(x):
-                continue  # weak python scalars
+                weak.append(_dtype_of_scalar(x))  # python scalars are weak: only their kind counts
             else:
                 tags.append(_norm_dtype(x))
-        return DType(_reduce(tags, _promote))
+        if not tags:
+            return DType(_reduce(weak, _promote))
+        r = _reduce(tags, _promote)
+        if "f8" in weak and r not in FLOATS and r != "object":
+            r = "f8"
+        elif "i8" in weak and r == "bool":
+            r = "i8"
+        return DType(r)
 
     def linspace(self, a, b, n):
         n = int(n)
